@@ -195,7 +195,9 @@ Definition step_gen (scan : bool) (s : st) (o : op) : st * err :=
       | Some w =>
           if negb (w_enc w) then (s, E "ErrWalletNotEncrypted")
           else if negb (w_type w =? TDet) then (s, E "ErrWalletTypeNotRecoverable")
-          else if seed =? 0 then (s, E "ERecoverCreate")
+          (* the comparison wallet is created with the old label and the given seed:
+             an empty label or seed makes that creation fail *)
+          else if (w_label w =? 0) || (seed =? 0) then (s, E "ERecoverCreate")
           else if negb (fp_of (w_type w) seed =? fp w) then (s, E "ErrWalletRecoverSeedWrong")
           else commit s (mkW (w_name w) (w_type w) seed (w_label w) (negb (pw =? 0)) pw (w_n w) false) dfail
       end
